@@ -27,6 +27,7 @@ C06(e, s) ==
   LET o == e.obs  can == s.prot \in {"none", "unlocked"} IN
   IF WrongUnlock(e) /\ ~e.raised THEN "C06.wrong-pass"
   ELSE IF e.act[1] = "unlock" /\ ~WrongUnlock(e) /\ e.raised THEN "C06.unlock-restores"
+  ELSE IF ~Split(o.privblob).ok THEN "C06.export-wellformed"          \* the export is a sequence of well-formed packets in every state
   ELSE IF o.is_protected # (s.prot # "none") \/ o.is_unlocked # (s.prot # "locked") THEN "C06.relock"
   ELSE IF can /\ o.sign # "ok" THEN "C06.unlock-restores"
   ELSE IF can /\ o.decrypt # "ok" THEN "C06.unlock-restores"
